@@ -90,6 +90,8 @@ def check(ctx):
             settings = [("batch_size", dict(bs=b)) for b in (1, 2, 3, 7, n, n + 1)] + [("atom_batches", dict(nbatch=k)) for k in (2, P.N)] + [("log_level", dict(log=1))]
             if ctx.quick:
                 settings = settings[::2] + settings[-2:]
+            # both at once: several atom batches AND several equal-size snapshot batches (state carried from one loop to the other)
+            settings += [("batch_size+atom_batches", dict(bs=b, nbatch=k)) for b in (2, 3) for k in sorted({2, P.N}) if k <= P.N and k > 1]
             for name, kw in settings:
                 got = run(**kw)
                 ok, m, err = fcs_close(got, base)
